@@ -137,11 +137,13 @@ def _rebuild(world, history):
         n = 1
     del stack[n:]
     _, sim, hv = stack[-1]
+    world._replaying = True
     for evs in history[n:]:
         post, reports = world.step(sim, evs)
         hv = world.hv_next(hv, sim, evs, post, reports)
         sim = post
         stack.append((evs, sim, hv))
+    world._replaying = False
     return sim, hv
 
 
